@@ -11,6 +11,9 @@ CLAIMED = {
     "C02": dict(text="real calcMetric/geometry2/calcBeta/geometry1 run on symbolic reals; z3 (after exact rational-function normalisation) shows every metric identity, the closed forms, the displacement scalar products and the sign logic for all real inputs of the stated domain",
                 note="reals not IEEE doubles; DDX/calc_curvature/calcHy stubbed; hy, beta, Bp taken as given; 1x1 region (element-wise formulas); locally linear psi for the displacement obligations",
                 tech=TECH + "; QF_NRA"),
+    "C03": dict(text="real geometry1 on an uninterpreted equilibrium, real interpolant closures, and AST slices of TokamakEquilibrium.__init__ (sign/2pi options, pressure extrapolation, profile-spline set-up and evaluation abscissa, scalars) plus the pressure-reflection closures of the real createRegionObjects, all on symbolic values; z3 decides each stated relation",
+                note="spline contract stubs; exp uninterpreted; bounded array sizes (2x2, 3 knots); that O/X-points are right is C19; spline accuracy not decided",
+                tech=TECH + "; AST slices of the current source"),
     "C06": dict(text="real calcZShift on open and periodic region chains with quadrature/interpolation contract stubs and the real integrand closure; real DDX (with dx from the real geometry1) on a radial stack in all connection cases; real geometry2/calcMetric wiring; z3 decides zero at chain start, continuity across joins, ShiftAngle, integrand = Bt/(R|Bp|), DDX stencils and finiteness",
                 note="cumulative_trapezoid and interp1d replaced by contracts (T[0]=0, exact at nodes); 2-region chains, nx<=2, ny=1; trapezoid accuracy and 2*pi*q not decided",
                 tech=TECH),
@@ -29,6 +32,9 @@ CLAIMED = {
     "C13": dict(text="real ParallelMap on a model of multiprocessing; every interleaving of queue operations within the bound is explored by the path explorer, the failing task index and the arrival permutation are z3 integers",
                 note="queues are reliable FIFOs, processes run only when scheduled, dill = identity, tasks pure; 2-3 workers, 1-3 tasks, <= 1 failing task",
                 tech="path exploration of the real code on a scheduler model (schedules = explorer choice points) with symbolic failing index / arrival permutation decided by z3 (LIA); replay on the model and on real multiprocessing"),
+    "C14": dict(text="ONE clause only: 'building an equilibrium does not modify the caller's input arrays' - the constructor's option-handling statements (AST slice) run on object arrays of symbols for all flag combinations; the caller's arrays are compared element-for-element with their original symbolic contents",
+                note="the remaining clauses of C14 (run-to-run identity, YAML/CLI reproducibility, hidden state) are I/O and whole-pipeline facts outside solver-based checking and are NOT claimed; the comparison is structural (term identity), no arithmetic reasoning is needed",
+                tech="symbolic execution of an AST slice of the real constructor on z3-term payloads; structural comparison of the caller's arrays"),
     "C17": dict(text="reader pattern and writer formats read from the source and decided as z3 regular-expression/string queries; real write/read executed on symbolic payloads for layout/order; header widths decided in LIA (model validated against the real code each run)",
                 note="C printf %E language model; injective token pair for f2s/float; bounded sizes for layout; 2-digit exponents",
                 tech=TECH + "; z3 sequences/regex, LIA"),
